@@ -1180,9 +1180,12 @@ func (in *Interp) symLoad(r0 *SymRef) Value {
 			d2 := tb.Bin(OpUDiv, abs, k(100))
 			d1 := tb.Bin(OpURem, tb.Bin(OpUDiv, abs, k(10)), k(10))
 			d0 := tb.Bin(OpURem, abs, k(10))
-			v := tb.Bin(OpAdd, tb.Bin(OpAdd, tb.Bin(OpShl, tb.Bin(OpAdd, d2, k('0')), k(16)), tb.Bin(OpShl, tb.Bin(OpAdd, d1, k('0')), k(8))), tb.Bin(OpAdd, d0, k('0')))
-			flag := tb.Ite(tb.Bin(OpULt, abs, k(10)), k(2<<24), tb.Ite(tb.Bin(OpULt, abs, k(100)), k(1<<24), k(0)))
-			return tb.Bin(OpAdd, v, flag)
+			// the entry is four byte fields (count of leading zeros, three digit characters): built as a
+			// concatenation so that the consumer's byte(v>>16), byte(v>>8), byte(v), v>>24 simplify to the fields
+			b8 := func(t *Term) *Term { return tb.Extract(tb.Bin(OpAdd, t, k('0')), 7, 0) }
+			k8 := func(v uint64) *Term { return tb.Const(8, v) }
+			flag := tb.Ite(tb.Bin(OpULt, abs, k(10)), k8(2), tb.Ite(tb.Bin(OpULt, abs, k(100)), k8(1), k8(0)))
+			return tb.Concat(flag, tb.Concat(b8(d2), tb.Concat(b8(d1), b8(d0))))
 		}
 	}
 	// affine segment: table[i] == table[0] + i for every reachable entry (exhaustively checked)
